@@ -15,9 +15,9 @@ CONFIGS = ["setup.cfg", "pyproject.toml", "bumpver.toml", ".bumpver.toml", "pyca
 UNRELATED = {
     "setup.cfg": "[metadata]\nname = demo\n",
     "pyproject.toml": '[build-system]\nrequires = ["setuptools"]\n',
-    "bumpver.toml": '[other]\nkey = "value"\n',
-    ".bumpver.toml": '[other]\nkey = "value"\n',
-    "pycalver.toml": '[other]\nkey = "value"\n',
+    "bumpver.toml": '[tool.black]\nline-length = 100\n\n[other]\nkey = "value"\n',  # tables of other tools share the file
+    ".bumpver.toml": '[other]\nkey = "value"\n\n[tool.isort]\nprofile = "black"\n',
+    "pycalver.toml": '[tool.black]\nline-length = 100\n',
 }
 SECTION = {
     "setup.cfg": '[bumpver]\ncurrent_version = "2020.1001-alpha"\nversion_pattern = "YYYY.BUILD[-TAG]"\n\n[bumpver:file_patterns]\nsetup.cfg =\n    current_version = "{version}"\n',
@@ -145,7 +145,27 @@ def run(tier="quick", seed=0):
     with mp.get_context("fork").Pool(16) as pool:
         res = pool.map(check_layout, todo, chunksize=16)
     bad = [(f, r) for f, r in zip(todo, res) if r is not None]
+    # B: prior content with CRLF line endings (the prefix claim is about bytes)
+    crlf = []
+    for c in CONFIGS:
+        crlf.append({c: UNRELATED[c].replace("\n", "\r\n")})
+        crlf.append({c: UNRELATED[c].replace("\n", "\r\n"), "README.md": PLAIN_TEXT["README.md"].replace("\n", "\r\n"), "setup.py": PLAIN_TEXT["setup.py"]})
+    res2 = [check_layout(f) for f in crlf]
+    bad2 = [(f, r) for f, r in zip(crlf, res2) if r is not None]
+    extra = dict(
+        name="C19.init.prior_content_with_crlf_line_endings_stays_a_byte_prefix",
+        kind="B",
+        verdict="held" if not bad2 else "refuted",
+        cases=len(crlf),
+        distinct=len(crlf),
+        bound=f"{len(crlf)} layouts whose existing files use CRLF line endings (one config-capable file with unrelated content, alone and next to README.md/setup.py)",
+        witness=[dict(files=f, problem=r) for f, r in bad2[:3]],
+        observed=bad2[0][1] if bad2 else None,
+        sample=[sorted(crlf[0].keys())],
+        python_replay=(dict(module="checks.c19", function="replay_layout", args=[bad2[0][0]]) if bad2 else None),
+    )
     return [
+        extra,
         dict(
             name="C19.init.appends_usable_config_prefers_configured_file_dry_and_second_init_change_nothing",
             kind=kind,
